@@ -266,7 +266,7 @@ func init() {
 		Rule: "every function reachable from the compiled chunk of: every .elk/.elk.test file of the repository, realistic snippets, their token-level mutations that still type-check, and G-prog generated programs (closures, loops, labelled jumps, catch/finally, defer, generators, async in the snippets); trace monitor (verif-tagged VM hook, generated programs, snippets and value-loop / >255-constant mutual-call templates are executed): every executed offset is an instruction boundary, operand stack depth relative to the frame is never negative and identical each time an instruction is reached; structure monitor: disassembles without error, every instruction inside the function, jump/loop/for-in targets and catch entries on instruction boundaries and not past the last instruction, value-pool indices in range, call-site value kind matches the call opcode, line table length; distinct = opcodes seen",
 		NumCases: func(tier string) int {
 			if tier == "thorough" {
-				return len(elkCorpus()) + 60000
+				return len(elkCorpus()) + 20000
 			}
 			return len(elkCorpus()) + 4000
 		},
